@@ -294,6 +294,10 @@ def fam_prim(c):
     # an ignored field in the middle of a tuple struct / of an enum variant (the recorded offsets are those of the declared positions)
     L += c.struct(mod, "T_ignore_mid_C", [F("0", "u32"), F("1", "u16", ignore=True), F("2", "u64")], repr="C", family="PRIM", tuple_struct=True)
     L += c.struct(mod, "T_ignore_first_C", [F("0", "u64", ignore=True), F("1", "u16"), F("2", "u32")], repr="C", family="PRIM", tuple_struct=True)
+    # a field hidden from introspection that is not the last one: the children are numbered by the fields that remain
+    L += c.struct(mod, "T_intro_ignore_mid", [F("0", "u32"), F("1", "u16", intro_ignore=True), F("2", "u8")], family="PRIM", tuple_struct=True)
+    L += c.struct(mod, "S_intro_ignore_mid", [F("a", "u32"), F("b", "u16", intro_ignore=True), F("c", "u8")], family="PRIM")
+    L += c.struct(mod, "T_intro_ignore_first", [F("0", "u32", intro_ignore=True), F("1", "u16"), F("2", "u8")], family="PRIM", tuple_struct=True)
     L += c.struct(mod, "Unit", [], family="PRIM")
     # nesting
     L += c.struct(mod, "N_packed_in_packed", [F("a", "P_u32_u16_u16_C"), F("b", "u64")], repr="C", family="NEST")
